@@ -20,3 +20,8 @@ Definition prop_c17 (input impl : val) : option Z :=
   else None.
 Definition chk_c17 (c : val) : val :=
   match prop_c17 (nthv 0 c) (nthv 1 c) with Some r => verdict_propfail r (VL []) | None => verdict_ok end.
+
+(* C18: the race-detector workload reports through its exit status (a data race: the race detector's exit code; a tripped
+   concurrent-use guard: a crash); a run that ends normally has nothing to report *)
+Definition chk_c18 (c : val) : val :=
+  match as_Z (nthv 0 (nthv 1 c)) with 0 => verdict_ok | r => verdict_propfail r (VL []) end.
